@@ -110,6 +110,20 @@ def _requests_for(family):
             'empty_body': ('POST', '/', '', b'', 'application/x-msgpack'),
             'list_body': ('POST', '/', '', msgpack.packb([1, 2]), 'application/x-msgpack'),
         }
+    if family == 'msgpackrpc':
+        import msgpack
+        R = lambda *parts: msgpack.packb(list(parts))
+        return {
+            'valid': ('POST', '/', '', R(0, 1, 'm', [5]), 'application/x-msgpack'),
+            'malformed': ('POST', '/', '', R(0, 1, 'm', [5])[:-1], 'application/x-msgpack'),
+            'unknown_method': ('POST', '/', '', R(0, 1, 'nope', [5]), 'application/x-msgpack'),
+            'invalid_arg': ('POST', '/', '', R(0, 1, 'm', ['x']), 'application/x-msgpack'),
+            'scalar_body': ('POST', '/', '', msgpack.packb(3), 'application/x-msgpack'),
+            'empty_body': ('POST', '/', '', b'', 'application/x-msgpack'),
+            'short_envelope': ('POST', '/', '', R(0, 1), 'application/x-msgpack'),
+            'unknown_message_type': ('POST', '/', '', R(9, 1, 'm', [5]), 'application/x-msgpack'),
+            'map_body': ('POST', '/', '', msgpack.packb({b'm': {b'i': 5}}), 'application/x-msgpack'),
+        }
     raise KeyError(family)
 
 
@@ -132,10 +146,13 @@ def protocols(family, validator='soft', **kw):
         return YamlDocument(validator=validator), YamlDocument()
     if family == 'msgpack':
         return MessagePackDocument(validator=validator), MessagePackDocument()
+    if family == 'msgpackrpc':
+        from spyne.protocol.msgpack import MessagePackRpc
+        return MessagePackRpc(validator=validator), MessagePackRpc()
     raise KeyError(family)
 
 
-FAMILIES_ALL = ['http', 'json', 'soap11', 'soap12', 'xml', 'yaml', 'msgpack']
+FAMILIES_ALL = ['http', 'json', 'soap11', 'soap12', 'xml', 'yaml', 'msgpack', 'msgpackrpc']
 USER_OUTCOMES = ['return', 'client_fault', 'server_fault', 'non_fault', 'non_fault_noargs', 'non_fault_2args',
                  'non_fault_typeerror', 'non_fault_valueerror', 'non_fault_keyerror', 'non_fault_typeerror_subclass',
                  'non_fault_unicode_error']
